@@ -466,12 +466,31 @@ def oracle(inp, obs):
     return None
 
 
+def _batch_starts(n):
+    """View indices at which make_log_rev_iterator starts a batch (9, 13, 19, ... revisions)."""
+    out, i, num = [], 0, 9
+    while i < n:
+        out.append(i)
+        i += num
+        num = min(int(num * 1.5), 200)
+    return out
+
+
 def finding_matches(fid, inp, obs, why):
-    if fid == "C25-forward-renamed-file":
-        # forward per-file log of a file that was renamed: the path is looked up in the OLDEST
-        # revision of the view (per-file graph: nothing is listed; delta matching: NoSuchFile)
-        return (inp.get("kind") == "file" and inp["forward"] and inp["target"] == "f"
-                and any(ev[0] == "ren" for ev in inp["events"]))
+    if fid == "C25-rename-at-batch-start":
+        # reverse per-file log by delta matching: the revision that renamed the file is the
+        # first revision of a batch -> _generate_deltas mutates the file set that the lazy
+        # get_revision_deltas generator still holds -> NoSuchFile(old name)
+        if inp.get("kind") != "file" or inp["forward"] or inp["target"] != "f" or "delta matching fails" not in (why or ""):
+            return False
+        n = inp["n"]
+        starts = _batch_starts(n)
+        return any(ev[0] == "ren" and (n - 1 - i) in starts for i, ev in enumerate(inp["events"]))
+    if fid == "C25-forward-file-log":
+        # forward per-file logs: delta matching drops the revisions that follow the file's creation
+        # inside one batch and fails with NoSuchFile for a renamed file; the per-file graph looks
+        # the path up in the oldest revision of the view and lists nothing for a renamed file
+        return inp.get("kind") == "file" and inp["forward"]
     return False
 
 
